@@ -48,6 +48,13 @@ TRANSPARENT = {
     "std::sync::Mutex::lock": (0, ()),
     "std::sync::poison::mutex::Mutex::lock": (0, ()),
     "std::cell::Cell::new": (0, ()),
+    "std::result::Result::map_err": (0, ()),
+    "core::slice::as_ptr": (0, ()),
+    "core::slice::as_mut_ptr": (0, ()),
+    "std::vec::Vec::as_ptr": (0, ()),
+    "std::vec::Vec::as_mut_ptr": (0, ()),
+    "std::vec::Vec::as_slice": (0, ()),
+    "std::vec::Vec::as_mut_slice": (0, ()),
     "std::result::Result::unwrap_or": (0, ()),
     "std::option::Option::unwrap_or": (0, ()),
     "std::convert::TryInto::try_into": (0, ()),
